@@ -144,6 +144,11 @@ class C16(HsProp):
             for cut2 in range(cut1 + 1, min(len(data), cut1 + 9)):
                 out.append(gen_hs.hc_case('hb%d' % k, b'ws://example.com/', ops=['r', 'r'],
                                           rds=['d:' + hx(data[:cut1]), 'd:' + hx(data[cut1:cut2]), 'd:' + hx(data[cut2:])])); k += 1
+        # extra headers that clash with the mandatory ones (any case): the URL-derived / generated values must win
+        resp0 = gen_hs.response_bytes([(b'Upgrade', b'websocket'), (b'Connection', b'Upgrade'), (b'Sec-WebSocket-Accept', gen_hs.ACCEPT_MARK)])
+        for extra in ([(b'Host', b'evil.example')], [(b'sec-websocket-key', b'Zml4ZWRmaXhlZGZpeGVkZg==')], [(b'UPGRADE', b'h2c')],
+                      [(b'Connection', b'close')], [(b'Sec-WebSocket-Version', b'8')], [(b'Host', b'a.example'), (b'X-Other', b'1')]):
+            out.append(gen_hs.hc_case('hx%d' % k, b'ws://user@example.com:81/p', [], extra, ['r'], ['d:' + hx(resp0 + frame1)])); k += 1
         # generate_request on hand-built requests (duplicates, missing, extras)
         base = [(b'Host', b'h.example'), (b'Connection', b'Upgrade'), (b'Upgrade', b'websocket'), (b'Sec-WebSocket-Version', b'13'), (b'Sec-WebSocket-Key', b'a2V5a2V5a2V5a2V5a2V5a2==')]
         for i in range(len(base)):
